@@ -72,6 +72,8 @@ def showInc (codec : Nat) : Inc → String
 def showErr : Err → String
   | .unknownType => "err:unknown-type"
   | .badInt => "err:bad-int"
+  | .badLen => "err:bad-len"
+  | .tooDeep => "err:too-deep"
 
 def showCrash : Crash → String
   | .sliceOOB => "crash:slice"
